@@ -6,35 +6,35 @@ import Splipy.Lemmas.C18NumberingA
 
 set_option linter.unusedSectionVars false
 
-namespace Splipy.MP
+namespace Splipy.MP.C18L
 
 variable {α : Type} [Inhabited α]
 
 /-! ## positions of `setSect` / `fillSect` -/
 
 theorem setSect_shape (a vals : NdArr α) (sec : Sec) : (a.setSect sec vals).shape = a.shape := rfl
-theorem setSect_wf (a vals : NdArr α) (sec : Sec) : (a.setSect sec vals).WF := NdArr.ofFn_wf _ _
+theorem setSect_wf (a vals : NdArr α) (sec : Sec) : (a.setSect sec vals).SizeOK := ndOfFn_wf _ _
 theorem fillSect_shape (a : NdArr α) (sec : Sec) (v : α) : (a.fillSect sec v).shape = a.shape := rfl
-theorem fillSect_wf (a : NdArr α) (sec : Sec) (v : α) : (a.fillSect sec v).WF := NdArr.ofFn_wf _ _
+theorem fillSect_wf (a : NdArr α) (sec : Sec) (v : α) : (a.fillSect sec v).SizeOK := ndOfFn_wf _ _
 
 theorem setSect_getD (a vals : NdArr α) (sec : Sec) {q : ℕ} (hq : q < shapeSize a.shape) :
     (a.setSect sec vals).data.getD q default =
       if onSection sec a.shape (unravel a.shape q) then vals.get (projectSection sec (unravel a.shape q))
       else a.data.getD q default := by
   unfold NdArr.setSect
-  rw [NdArr.ofFn_getD _ _ hq]
+  rw [ndOfFn_getD _ _ hq]
   split
   · rfl
-  · exact a.get_unravel hq
+  · exact ndGet_unravel a hq
 
 theorem fillSect_getD (a : NdArr α) (sec : Sec) (v : α) {q : ℕ} (hq : q < shapeSize a.shape) :
     (a.fillSect sec v).data.getD q default =
       if onSection sec a.shape (unravel a.shape q) then v else a.data.getD q default := by
   unfold NdArr.fillSect
-  rw [NdArr.ofFn_getD _ _ hq]
+  rw [ndOfFn_getD _ _ hq]
   split
   · rfl
-  · exact a.get_unravel hq
+  · exact ndGet_unravel a hq
 
 /-! ## the flags of the first loop -/
 
@@ -130,9 +130,9 @@ theorem flagArray_size (p : PatchPlan) : (flagArray p).data.size = shapeSize p.s
       · rw [fillSect_wf, fillSect_shape, ha.2]
       · rw [fillSect_shape, ha.2]
 
-end Splipy.MP
+end Splipy.MP.C18L
 
-namespace Splipy.MP
+namespace Splipy.MP.C18L
 
 variable {α : Type} [Inhabited α]
 
@@ -145,7 +145,7 @@ theorem default_getD (q : ℕ) : (default : NdArr α).data.getD q default = defa
 theorem readFace_frame {k : ℕ} {A B : Array (NdArr α)} {f : FaceLink} (h : readFace k A f = .ok B) :
     (∀ i, i ≠ k → B.getD i default = A.getD i default) ∧
     (B.getD k default).shape = (A.getD k default).shape ∧
-    ((A.getD k default).WF → (B.getD k default).WF) := by
+    ((A.getD k default).SizeOK → (B.getD k default).SizeOK) := by
   rcases readFace_ok h with ⟨_, rfl⟩ | ⟨_, ori, v, _, _, _, rfl⟩
   · exact ⟨fun _ _ => rfl, rfl, id⟩
   · refine ⟨fun i hi => ?_, ?_, ?_⟩
@@ -184,7 +184,7 @@ theorem readFace_copy {k : ℕ} {A B : Array (NdArr α)} {f : FaceLink} (h : rea
   · rw [getD_setIfInBounds]; split
     · rw [setSect_getD _ _ _ hq]
       simp only [hon.2, if_true]
-      rcases NdArr.get_mem (ori.mapArray (resolveView A v)) (projectSection f.sec (unravel (A.getD k default).shape q)) with h1 | h1
+      rcases ndGet_mem (ori.mapArray (resolveView A v)) (projectSection f.sec (unravel (A.getD k default).shape q)) with h1 | h1
       · exact Or.inl h1
       · rcases apply_entries _ _ h1 with h2 | h2
         · exact Or.inl h2
@@ -207,9 +207,9 @@ def FlaggedBy (fs : List FaceLink) (s : List ℕ) (q : ℕ) : Prop :=
 
 theorem readFaces_spec (k : ℕ) (s : List ℕ) (Pr : ℕ → Prop) (hPr : ∀ i, Pr i → i ≠ k) :
     ∀ (fs : List FaceLink) (A B : Array (NdArr α)),
-    fs.foldlM (readFace k) A = .ok B → (A.getD k default).shape = s → (A.getD k default).WF →
+    fs.foldlM (readFace k) A = .ok B → (A.getD k default).shape = s → (A.getD k default).SizeOK →
     (∀ f ∈ fs, f.owned = false → ∀ v, f.src = some v → Pr v.top) →
-    (∀ i, i ≠ k → B.getD i default = A.getD i default) ∧ (B.getD k default).shape = s ∧ (B.getD k default).WF ∧
+    (∀ i, i ≠ k → B.getD i default = A.getD i default) ∧ (B.getD k default).shape = s ∧ (B.getD k default).SizeOK ∧
     ∀ q, q < shapeSize s →
       (¬ FlaggedBy fs s q → (B.getD k default).data.getD q default = (A.getD k default).data.getD q default) ∧
       (FlaggedBy fs s q → (B.getD k default).data.getD q default = default ∨
@@ -251,4 +251,4 @@ theorem readFaces_spec (k : ℕ) (s : List ℕ) (Pr : ℕ → Prop) (hPr : ∀ i
           · exact Or.inl h1
           · exact Or.inr ⟨v.top, hord f (by simp) hf.1 v hv, h1⟩
 
-end Splipy.MP
+end Splipy.MP.C18L
